@@ -7576,3 +7576,231 @@ func ruleKeyBoundAgreement(c *Ctx) {
 		c.Floor("comparisons with mpt."+limit+" outside Trie.Put", len(all)-1, floor)
 	}
 }
+
+// ruleResetOnlyForward (C19): dbft.Reset is the one call that makes a validator forget what it has committed to at a
+// height - after it the node may change view and sign another header for the same height. The service calls it from
+// the chain-block notification, and only for a block at or above the height dBFT is working on (b.Index >=
+// dbft.BlockIndex): the notification about the block the current context is already built upon (b.Index ==
+// BlockIndex-1, delivered late because notifications queue) must leave the context alone. The rule normalises every
+// comparison between the block's index and dBFT's that controls the call (enclosing ifs, and earlier `if … { return }`
+// guards) to `b.Index - BlockIndex OP k` and demands that one of them implies `>= 0`.
+func ruleResetOnlyForward(c *Ctx) {
+	fd := c.P.Func("pkg/consensus", "service", "handleChainBlock")
+	if fd == nil {
+		c.Lost("reset-only-forward.anchor", "service.handleChainBlock not found")
+		return
+	}
+	f := c.P.NewFuncCFG(fd)
+	info := f.Info
+	// d = index of the notified block - dbft.BlockIndex; a comparison is returned as (op, k): d op k
+	norm := func(e ast.Expr) (token.Token, int64, bool) {
+		be, ok := ast.Unparen(e).(*ast.BinaryExpr)
+		if !ok {
+			return 0, 0, false
+		}
+		lb, lo, ok1 := linearForm(f, be.X, 0)
+		rb, ro, ok2 := linearForm(f, be.Y, 0)
+		if !ok1 || !ok2 {
+			return 0, 0, false
+		}
+		isBlk := func(s string) bool { return strings.HasSuffix(s, ".Index") && !strings.Contains(s, "dbft") }
+		isCtx := func(s string) bool { return strings.HasSuffix(s, "dbft.BlockIndex") }
+		op := be.Op
+		switch {
+		case isBlk(lb) && isCtx(rb):
+			// lb+lo op rb+ro  =>  d op ro-lo
+			return op, ro - lo, true
+		case isCtx(lb) && isBlk(rb):
+			flip := map[token.Token]token.Token{token.LSS: token.GTR, token.GTR: token.LSS, token.LEQ: token.GEQ, token.GEQ: token.LEQ, token.EQL: token.EQL, token.NEQ: token.NEQ}
+			fo, ok := flip[op]
+			if !ok {
+				return 0, 0, false
+			}
+			// rb+ro fo lb+lo => d fo lo-ro
+			return fo, lo - ro, true
+		}
+		return 0, 0, false
+	}
+	neg := map[token.Token]token.Token{token.LSS: token.GEQ, token.GEQ: token.LSS, token.GTR: token.LEQ, token.LEQ: token.GTR, token.EQL: token.NEQ, token.NEQ: token.EQL}
+	implies := func(op token.Token, k int64) bool {
+		switch op {
+		case token.GEQ, token.EQL:
+			return k >= 0
+		case token.GTR:
+			return k >= -1
+		}
+		return false
+	}
+	// conjuncts of a condition that hold when it is true / disjuncts that are all false when it is false
+	var conj func(e ast.Expr, op token.Token) []ast.Expr
+	conj = func(e ast.Expr, op token.Token) []ast.Expr {
+		if be, ok := ast.Unparen(e).(*ast.BinaryExpr); ok && be.Op == op {
+			return append(conj(be.X, op), conj(be.Y, op)...)
+		}
+		return []ast.Expr{e}
+	}
+	terminates := func(b *ast.BlockStmt) bool {
+		if len(b.List) == 0 {
+			return false
+		}
+		_, ok := b.List[len(b.List)-1].(*ast.ReturnStmt)
+		return ok
+	}
+	n := 0
+	var stack []ast.Node
+	ast.Inspect(fd.Decl.Body, func(x ast.Node) bool {
+		if x == nil {
+			stack = stack[:len(stack)-1]
+			return true
+		}
+		stack = append(stack, x)
+		call, ok := x.(*ast.CallExpr)
+		if !ok {
+			return true
+		}
+		fn := calleeFunc(info, call)
+		if fn == nil || fn.Name() != "Reset" || fn.Pkg() == nil || !strings.HasSuffix(fn.Pkg().Path(), "nspcc-dev/dbft") {
+			return true
+		}
+		n++
+		guarded, seen := false, []string{}
+		note := func(op token.Token, k int64) {
+			seen = append(seen, fmt.Sprintf("index - BlockIndex %s %d", op, k))
+			if implies(op, k) {
+				guarded = true
+			}
+		}
+		for i := len(stack) - 2; i >= 0; i-- {
+			switch p := stack[i].(type) {
+			case *ast.IfStmt:
+				inBody := i+1 < len(stack) && stack[i+1] == ast.Node(p.Body)
+				inElse := i+1 < len(stack) && p.Else != nil && stack[i+1] == ast.Node(p.Else)
+				if inBody {
+					for _, e := range conj(p.Cond, token.LAND) {
+						if op, k, ok := norm(e); ok {
+							note(op, k)
+						}
+					}
+				} else if inElse {
+					for _, e := range conj(p.Cond, token.LOR) {
+						if op, k, ok := norm(e); ok {
+							note(neg[op], k)
+						}
+					}
+				}
+			case *ast.BlockStmt:
+				// earlier guards of this block
+				for _, st := range p.List {
+					if i+1 < len(stack) && ast.Node(st) == stack[i+1] {
+						break
+					}
+					if is, ok := st.(*ast.IfStmt); ok && is.Else == nil && terminates(is.Body) {
+						for _, e := range conj(is.Cond, token.LOR) {
+							if op, k, ok := norm(e); ok {
+								note(neg[op], k)
+							}
+						}
+					}
+				}
+			}
+		}
+		key := fmt.Sprintf("handleChainBlock.Reset#%d", n)
+		switch {
+		case guarded:
+			c.OK(key, c.P.Pos(call.Pos()), "dbft.Reset only for a block at or above the height dBFT works on ("+strings.Join(seen, "; ")+")")
+		case len(seen) > 0:
+			c.Fail(key, c.P.Pos(call.Pos()), "service.handleChainBlock resets the dBFT context under "+strings.Join(seen, "; ")+", which does not imply `index >= dbft.BlockIndex`: a late notification about the block the context is already built upon (index == BlockIndex-1) wipes the context again - the commit the validator has sent for this height is forgotten and it may change view and sign a second, different header for the same height")
+		default:
+			c.Fail(key, c.P.Pos(call.Pos()), "service.handleChainBlock resets the dBFT context without comparing the block's index with dbft.BlockIndex: a notification about an old block (the node's own, or one delivered late) wipes what the validator has committed to at the current height")
+		}
+		return true
+	})
+	c.Floor("dbft.Reset calls in handleChainBlock", n, 1)
+}
+
+// ruleFetchedTxUngated (C19): a backup that lacks a proposed transaction asks its peers for it, and the answer reaches
+// dBFT through service.OnTransaction -> s.transactions. dBFT then has the proposal checked against the ledger
+// (verifyBlock). The hand-over must not depend on the node's own memory pool or on anything else the ledger says at
+// that moment: pools differ between validators (two spends of one balance, each in half of the pools, is ordinary
+// traffic), and a transaction the local pool refuses because of what it already holds is still valid in the proposed
+// block. Gated on the pool, every proposal is backed by a minority only and no block is produced although everybody is
+// honest and everything is delivered. The rule: no condition of OnTransaction calls into the ledger or the pool.
+func ruleFetchedTxUngated(c *Ctx) {
+	fd := c.P.Func("pkg/consensus", "service", "OnTransaction")
+	if fd == nil {
+		c.Lost("fetched-tx-ungated.anchor", "service.OnTransaction not found")
+		return
+	}
+	info := fd.Pkg.TypesInfo
+	sends := 0
+	var bad []string
+	ledgerCall := func(e ast.Node) string {
+		out := ""
+		ast.Inspect(e, func(x ast.Node) bool {
+			call, ok := x.(*ast.CallExpr)
+			if !ok {
+				return true
+			}
+			fn := calleeFunc(info, call)
+			if fn == nil || fn.Pkg() == nil {
+				return true
+			}
+			sig, _ := fn.Type().(*types.Signature)
+			p := pkgRel(fn.Pkg())
+			isLedger := false
+			if sig != nil && sig.Recv() != nil {
+				t := sig.Recv().Type()
+				if pt, ok := t.(*types.Pointer); ok {
+					t = pt.Elem()
+				}
+				if nt, ok := t.(*types.Named); ok && p == "pkg/consensus" && nt.Obj().Name() == "Ledger" {
+					isLedger = true
+				}
+			}
+			if isLedger || strings.HasPrefix(p, "pkg/core") {
+				out = shortSym(FuncKey(fn))
+			}
+			return true
+		})
+		return out
+	}
+	ast.Inspect(fd.Decl.Body, func(x ast.Node) bool {
+		switch s := x.(type) {
+		case *ast.SendStmt:
+			if strings.HasSuffix(types.ExprString(s.Chan), ".transactions") {
+				sends++
+			}
+		case *ast.IfStmt:
+			if w := ledgerCall(s.Cond); w != "" {
+				bad = append(bad, fmt.Sprintf("%s (condition at %s)", w, c.P.Pos(s.Cond.Pos())))
+			}
+			if s.Init != nil {
+				if w := ledgerCall(s.Init); w != "" {
+					bad = append(bad, fmt.Sprintf("%s (condition at %s)", w, c.P.Pos(s.Init.Pos())))
+				}
+			}
+		case *ast.SwitchStmt:
+			if s.Tag != nil {
+				if w := ledgerCall(s.Tag); w != "" {
+					bad = append(bad, w)
+				}
+			}
+		case *ast.CaseClause:
+			for _, e := range s.List {
+				if w := ledgerCall(e); w != "" {
+					bad = append(bad, w)
+				}
+			}
+		}
+		return true
+	})
+	if sends == 0 {
+		c.Lost("fetched-tx-ungated.send", "service.OnTransaction no longer sends on s.transactions")
+		return
+	}
+	if len(bad) == 0 {
+		c.OK("OnTransaction", c.P.Pos(fd.Decl.Pos()), "a transaction received for dBFT is handed over whatever the node's own pool holds")
+	} else {
+		c.Fail("OnTransaction", c.P.Pos(fd.Decl.Pos()), "service.OnTransaction decides whether dBFT gets a fetched transaction by asking the ledger/pool: "+strings.Join(bad, ", ")+". The memory pools of validators differ (conflicting spends of one balance); a transaction of the proposal that this node's pool refuses because of what it holds is valid in the proposed block, and without it the node can never accept the proposal - with pools split, no proposal gathers M preparations and block production stops although every validator is honest")
+	}
+}
